@@ -24,10 +24,12 @@ DEN = 24
 # name comparisons done with `in`, startswith or endswith instead of equality show up there
 CONTIG_SETS = [[('chrA', 240), ('chrB', 120)],
                [('chr1', 240), ('chr11', 120), ('chr1_alt', 90)],
-               [('chr11', 200), ('chr1', 150)]]
+               [('chr11', 200), ('chr1', 150)],
+               [('chrX', 150), ('chrY', 150)]]          # two contigs of equal length
 SWITCHES = ['r1only', 'r2only', 'filterMP', 'proper', 'no_indels', 'no_softclips', 'filterXA', 'dedup', 'nodivide', 'divmm',
             'minMQ', 'max_edits', 'blacklist']
-CIGARS = ['10M', '10M', '10M', '6M', '4M1I5M', '5M2D5M', '2S8M', '8M2S', '3S3M1I3M', '2S4M3D4M', '30M', '60M']
+CIGARS = ['10M', '10M', '10M', '6M', '4M1I5M', '5M2D5M', '2S8M', '8M2S', '3S3M1I3M', '2S4M3D4M', '30M', '60M',
+          '2H8M', '8M3H', '5M10N5M', '4=1X5=', '1M']      # hard clips, reference skip, =/X, one base
 GENES = ['gA', 'gB', 'gC']
 KEYMODES = ['joined:chrom', 'joined:GN', 'joined:GN,DA', 'joined:reference_name,DA', 'joined:DA,DS', 'single:GN',
             'single:GN,DA', 'single:DA,chrom', 'bin', 'bin:GN', 'bin:DS', 'binslide', 'byvalue:GN', 'byvalue:DA,chrom',
@@ -55,7 +57,10 @@ def gen_scene(rng):
     for _ in range(rng.choice([1, 1, 2])):
         contig, ln = rng.choice(CONTIGS)
         s = rng.randrange(20, ln - 60)
-        bl.append({'contig': contig, 'start': s, 'end': s + rng.choice([1, 5, 10, 20, 40])})
+        e = s + rng.choice([1, 5, 10, 20, 40])
+        if rng.random() < 0.15:
+            s, e = rng.choice([(0, 1), (0, 12), (ln - 1, ln), (ln - 15, ln)])      # touching coordinate 0 / the contig end
+        bl.append({'contig': contig, 'start': s, 'end': e})
     bed = []
     for k in range(rng.choice([1, 2, 3, 4])):
         contig, ln = CONTIGS[k % len(CONTIGS)] if k < len(CONTIGS) and rng.random() < 0.7 else rng.choice(CONTIGS)
@@ -70,7 +75,7 @@ def gen_scene(rng):
 
 
 def gen_tags(rng, d):
-    d['sample'] = rng.choice(['cellA', 'cellB', 'cellC'])
+    d['sample'] = rng.choice(['cellA', 'cellAB', 'cellB'])      # one cell name is a prefix of another
     feats, nums = {}, {}
     if rng.random() < 0.9:
         feats['GN'] = rng.sample(GENES, rng.choice([1, 1, 2]))
@@ -121,7 +126,7 @@ def gen_bam(rng, scene):
     anchors = [(b['contig'], b[k]) for b in bl + bl + bl + bed for k in ('start', 'end')]
     anchors += [(c, m) for c, ln in CONTIGS for m in (0, 50, 100, ln)]
     reads = []
-    n = rng.randint(3, 14)
+    n = rng.choice([0, 1, 1] + [rng.randint(3, 14)] * 27)      # now and then an empty BAM / a single template
     for t in range(n):
         kind = rng.choices(['single', 'pair', 'pair_mate_unmapped', 'unplaced', 'pair_both_unmapped'], [4, 5, 2, 1, 0.5])[0]
         name = 'q%d' % t
@@ -270,7 +275,7 @@ def gen_optsets(rng, scene, n, pair_cycle, km_cycle):
 def namespace(o, bam, bedpath, blpath):
     j = ','.join(o['tags'])
     return SimpleNamespace(
-        alignmentfiles=[bam], head=None, o=None, bin=o['bin'] or None, binTag=o['bintag'], sliding=o['sliding'] or None,
+        alignmentfiles=bam if isinstance(bam, list) else [bam], head=None, o=None, bin=o['bin'] or None, binTag=o['bintag'], sliding=o['sliding'] or None,
         bedfile=bedpath if o['usebed'] else None, showtags=False, featureTags=j if o['mode'] == 'single' else None,
         joinedFeatureTags=j if o['mode'] == 'joined' else None, byValue=o['byvalue'] or None, sampleTags='SM',
         proper_pairs_only=o['proper'], no_indels=o['no_indels'], max_base_edits=None if o['max_edits'] < 0 else o['max_edits'],
@@ -299,7 +304,9 @@ def flatten(df):
     return rows
 
 
-def run_one(ct, o, bam, tmp):
+def run_one(ct, o, bam, tmp, reuse=False, via='df'):
+    """One (or, with reuse, two consecutive) call(s) of create_count_table with the SAME namespace object.
+    via='pickle': the export path (-o x.pickle, read back with pandas) instead of return_df=True."""
     bedpath = os.path.join(tmp, 'regions.bed')
     blpath = os.path.join(tmp, 'blacklist.bed')
     with open(bedpath, 'w') as f:
@@ -309,21 +316,39 @@ def run_one(ct, o, bam, tmp):
         for b in o['blacklist']:
             f.write('%s\t%d\t%d\n' % (b['contig'], b['start'], b['end']))
     args = namespace(o, bam, bedpath, blpath)
-    raised, rows = '', []
-    with contextlib.redirect_stdout(io.StringIO()):
-        try:
-            df = ct.create_count_table(args, return_df=True)
-        except Exception as ex:          # a crash of the code under test is an observation
-            raised = type(ex).__name__
-            df = None
-    if df is not None:
-        rows = flatten(df)
-    return raised, rows
+    out = []
+    for _ in range(2 if reuse else 1):
+        raised, rows, df = '', [], None
+        with contextlib.redirect_stdout(io.StringIO()):
+            try:
+                if via == 'pickle':
+                    import pandas as pd
+                    args.o = os.path.join(tmp, 'table.pickle')
+                    ct.create_count_table(args, return_df=False)
+                    df = pd.read_pickle(args.o)
+                    os.remove(args.o)
+                else:
+                    df = ct.create_count_table(args, return_df=True)
+            except Exception as ex:          # a crash of the code under test is an observation
+                raised = type(ex).__name__
+        if df is not None:
+            rows = flatten(df)
+        out.append((raised, rows))
+    return out
 
 
-def write_bam(path, reads, contigs):
+def write_bam(path, reads, contigs, split=None):
+    """One BAM, or (split = file index per read) two BAMs with the same header given to the tool as a list."""
     header = bamgen.make_header([tuple(c) for c in contigs])
-    bamgen.write_bam(path, header, [to_segment(header, d) for d in reads])
+    if not split:
+        bamgen.write_bam(path, header, [to_segment(header, d) for d in reads])
+        return path
+    paths = []
+    for fi in (0, 1):
+        p = path.replace('.bam', '_%d.bam' % fi)
+        bamgen.write_bam(p, header, [to_segment(header, d) for d, k in zip(reads, split) if k == fi])
+        paths.append(p)
+    return paths
 
 
 def main():
@@ -338,10 +363,12 @@ def main():
         if tier == 'replay':
             with open(sys.argv[3]) as rf:
                 case = json.load(rf)['case']['event']
-            write_bam(bam, case['bam']['reads'], case['bam'].get('contigs', CONTIG_SETS[0]))
-            emit(case['bam'])
-            raised, rows = run_one(ct, case['opts'], bam, tmp)
-            emit({'ev': 'table', 'tid': case['tid'], 'opts': case['opts'], 'raised': raised, 'table': rows})
+            bams = write_bam(bam, case['bam']['reads'], case['bam'].get('contigs', CONTIG_SETS[0]), case['bam'].get('split'))
+            emit({k: v for k, v in case['bam'].items()})
+            res = run_one(ct, case['opts'], bams, tmp, reuse=case.get('call', 1) == 2, via=case.get('via', 'df'))
+            for k, (raised, rows) in enumerate(res):
+                emit({'ev': 'table', 'tid': case['tid'] - len(res) + 1 + k, 'opts': case['opts'], 'raised': raised, 'table': rows,
+                      'via': case.get('via', 'df'), 'call': k + 1})
         else:
             seed = int(sys.argv[3])
             rng = random.Random(seed)
@@ -355,13 +382,20 @@ def main():
             for b in range(nbam):
                 scene = gen_scene(rng)
                 reads = gen_bam(rng, scene)
-                write_bam(bam, reads, scene[2])
+                split = [rng.randrange(2) for _ in reads] if rng.random() < 0.2 else None    # two alignment files in one call
+                bams = write_bam(bam, reads, scene[2], split)
                 tid += 1
-                emit({'ev': 'bam', 'tid': tid, 'seed': seed, 'bam_index': b, 'contigs': [list(c) for c in scene[2]], 'reads': reads})
+                e = {'ev': 'bam', 'tid': tid, 'seed': seed, 'bam_index': b, 'contigs': [list(c) for c in scene[2]], 'reads': reads}
+                if split:
+                    e['split'] = split
+                emit(e)
                 for o in gen_optsets(rng, scene, nopt, pair_cycle, km_cycle):
-                    raised, rows = run_one(ct, o, bam, tmp)
-                    tid += 1
-                    emit({'ev': 'table', 'tid': tid, 'opts': o, 'raised': raised, 'table': rows})
+                    u = rng.random()
+                    via = 'pickle' if u < 0.1 else 'df'
+                    res = run_one(ct, o, bams, tmp, reuse=0.1 <= u < 0.25, via=via)
+                    for k, (raised, rows) in enumerate(res):
+                        tid += 1
+                        emit({'ev': 'table', 'tid': tid, 'opts': o, 'raised': raised, 'table': rows, 'via': via, 'call': k + 1})
     for fn in os.listdir(tmp):
         os.remove(os.path.join(tmp, fn))
     os.rmdir(tmp)
